@@ -25,6 +25,7 @@ def P(*ops):
             elif o == "S": out.append(op("signal"))
             elif o == "B": out.append(op("broadcast"))
             elif o == "D": out.append(op("debug"))
+            elif o == "DC": out.append(op("debugcv"))
             elif o == "N": out.append(op("notify"))
             elif o.startswith("set"): out.append(op("set", v=int(o[3]), x=int(o[4])))
             elif o.startswith("G"): out.append(op("gate", x=int(o[1:])))
